@@ -193,6 +193,10 @@ fn args_runner<const ID: usize>() -> BenchEntryRunner {
         let st: &'static BenchArgs = &ARGS[owner];
         let made = move || {
             MADE[owner].fetch_add(1, Ordering::SeqCst);
+            if let Some(ms) = std::env::var("HX_SLOW_ARGS").ok().and_then(|s| s.parse::<u64>().ok()) {
+                // make overlapping evaluations by concurrent runs deterministic
+                std::thread::sleep(std::time::Duration::from_millis(ms));
+            }
         };
         match a.kind {
             // Vec<i64>: items by value, names through ToString
